@@ -283,6 +283,11 @@ class Case:
             else:
                 A = sorted({v["addr"] for v in res["ok"]})
             want = {x["f"]: x for x in e["funcs"]}
+            all_allowed = set()
+            for x in want.values():
+                all_allowed |= set(x["allowed"])
+            # addresses the debugger chose that are no correct answer for any function of that name
+            stray = [y for y in A if y not in all_allowed]
             for f, x in want.items():
                 fn = self.dec["funcs"][f - 1]
                 self.note("fn_with_prologue_end" if x["haspe"] else "fn_without_prologue_end")
@@ -295,9 +300,15 @@ class Case:
                 if inside:
                     self.mm("fn_bp_not_at_prologue_end" if x["haspe"] else "fn_bp_not_on_instruction",
                             action, a["name"], expd, A, query)
-                else:
+                elif stray:
+                    # a breakpoint was created for the name but lies in no function of that name
                     self.mm("fn_bp_outside_function_despite_prologue_end" if x["haspe"]
                             else "fn_bp_outside_function_no_prologue_end", action, a["name"], expd, A, query)
+                else:
+                    # the name did not select this function at all (every address returned is a correct answer
+                    # for a sibling): which functions a name denotes is C17's subject, C04 judges the address
+                    # chosen for a selected function
+                    self.note("fn_not_selected_by_name_c17")
             for y in A:
                 g = self.func_of_addr(y)
                 if g is None:
